@@ -488,13 +488,14 @@ type ContractFile struct {
 	Defines   map[string]*Define
 	Axioms    []Clause
 	Consts    map[string]bool // globals to be treated as init-constants
+	Stables   []string        // stable families: "T.f" or "maptype <type>"
 	Imports   map[string]string
 }
 
 var clauseKeywords = map[string]bool{
 	"func": true, "end": true, "props": true, "requires": true, "ensures": true, "modifies": true,
 	"pure": true, "loop": true, "invariant": true, "decreases": true, "unroll": true, "define": true,
-	"axiom": true, "constglobal": true, "inline": true, "nopanic": true, "ieee": true, "assume": true,
+	"axiom": true, "constglobal": true, "stable": true, "inline": true, "nopanic": true, "ieee": true, "assume": true,
 	"trusted": true, "note": true, "fresh": true, "lemma": true, "opaque": true, "declare": true, "import": true, "ghost": true,
 }
 
@@ -581,6 +582,9 @@ func ParseContractFile(path string) (*ContractFile, error) {
 			for _, n := range strings.Fields(rc.text) {
 				cf.Consts[n] = true
 			}
+			continue
+		case "stable":
+			cf.Stables = append(cf.Stables, strings.TrimSpace(rc.text))
 			continue
 		case "func":
 			cur = &Contract{File: path, Line: rc.line, Func: strings.TrimSpace(rc.text), Loops: map[int]*LoopSpec{}, NoPanic: true}
